@@ -54,7 +54,8 @@ def op_runs(job):
             agg['keys'].append(res['key'])
         if res['violation']:
             if len(agg['violations']) < job.get('max_violations', 40):
-                agg['violations'].append({'index': i, 'case': case, 'violation': res['violation'],
+                agg['violations'].append({'index': i, 'case': res.get('case_override') or case,
+                                          'violation': res['violation'],
                                           'summary': res.get('summary', {}), 'digest': res['digest']})
             agg['counters']['violations'] = agg['counters'].get('violations', 0) + 1
         if len(agg['samples']) < 2 and res['nontrivial']:
